@@ -531,9 +531,8 @@ def run(ctx):
                "load_der_private_key raises only ValueError/TypeError/UnsupportedAlgorithm",
                "bcrypt round counts above 64 in mutated files are not executed (generator cap, counted as skipped)")
     ctx.build()
-    container_stream(ctx)
-    text_stream(ctx)
-    oracle_stream(ctx)
+    for stream in (container_stream, text_stream, oracle_stream):
+        lk.guarded(ctx, stream)
 
 
 def replay(data):
